@@ -12,7 +12,7 @@ import (
 func init() {
 	register(&Property{
 		ID:          "C18",
-		Explanation: "Decides structural necessary conditions of 'hashed names identify content; references resolve' (not injectivity of the hash): R1 every field of a chunk whose value reaches the bytes of an output file that is named after the chunk's hashed path (the chunk itself, its source map, its legal-comments file) is an input of the chunk hash (read by generateIsolatedHash / appendIsolatedHashesForImportedChunks), the hash's own outputs excepted; R2 hash.Write in the linker is only reached through the length-prefixing helpers or with fixed-width digests, so variable-length inputs cannot be re-split; R3 intermediate outputs (text with unique-key placeholders) are created only by the two piece-splitting functions, the final bytes of every chunk pass through substituteFinalPaths, and unique keys are minted only at the reviewed sites. R4 the final hash takes, for every chunk in the cross-chunk import closure, that chunk's isolated hash and the final paths of the assets it references: both are written inside the self-recursive visitor on every path from the visited-mark to the return, and nothing else is mixed into the same hash object by the naming loop unless it is also reachable from the visitor. R6 goroutine-private-slots (E-SLOT, shared with C08/R9 and C20/R6). R7 spawn-then-write: no store into a chunk field the isolated-hash goroutine reads is reachable from its spawn. R8 post-hash-appends-hashed: every config.Options field on which an append to the chunk's contents after substituteFinalPaths is control or data dependent is an input (data or control) of a hash write in generateIsolatedHash. R9 hash-test-on-substituted-template: the template tested with HasPlaceholder(·, HashPlaceholder) is the value passed to SubstituteTemplate. NOT covered: that every emitted reference resolves, hash collisions, propagation through anything other than cross-chunk imports and asset references.",
+		Explanation: "Decides structural necessary conditions of 'hashed names identify content; references resolve' (not injectivity of the hash): R1 every field of a chunk whose value reaches the bytes of an output file that is named after the chunk's hashed path (the chunk itself, its source map, its legal-comments file) is an input of the chunk hash (read by generateIsolatedHash / appendIsolatedHashesForImportedChunks), the hash's own outputs excepted; R2 hash.Write in the linker is only reached through the length-prefixing helpers or with fixed-width digests, so variable-length inputs cannot be re-split; R3 intermediate outputs (text with unique-key placeholders) are created only by the two piece-splitting functions, the final bytes of every chunk pass through substituteFinalPaths, and unique keys are minted only at the reviewed sites. R4 the final hash takes, for every chunk in the cross-chunk import closure, that chunk's isolated hash and the final paths of the assets it references: both are written inside the self-recursive visitor on every path from the visited-mark to the return, and nothing else is mixed into the same hash object by the naming loop unless it is also reachable from the visitor. R6 goroutine-private-slots (E-SLOT, shared with C08/R9 and C20/R6). R7 spawn-then-write: no store into a chunk field the isolated-hash goroutine reads is reachable from its spawn. R8 post-hash-appends-hashed: every config.Options field on which an append to the chunk's contents after substituteFinalPaths is control or data dependent is an input (data or control) of a hash write in generateIsolatedHash. R9 hash-test-on-substituted-template: the template tested with HasPlaceholder(·, HashPlaceholder) is the value passed to SubstituteTemplate. R10 chunk-data-hashed-unconditionally: no hash write of chunkInfo data in generateIsolatedHash is control dependent on a config.Options field. NOT covered: that every emitted reference resolves, hash collisions, propagation through anything other than cross-chunk imports and asset references.",
 		Run: func(p *Prog, tier string) []*RuleResult {
 			return []*RuleResult{c18HashCoverage(p), c18LengthPrefix(p), c18Placeholders(p), c18TransitiveClosure(p), c18DynamicImportEdges(p), goroutinePrivateSlots(p, "C18/R6 goroutine-private-slots"), spawnThenWrite(p, "C18/R7 spawn-then-write"), c18PostHashAppends(p), c18HashTestSameTemplate(p), c18ChunkDataHashedUnconditionally(p)}
 		},
